@@ -10,7 +10,8 @@ PROP = 'C20'
 LEVEL = 'exploration'
 BUDGET = {'quick': 9600, 'thorough': 160000}
 RULE = ('cases = small deterministic chart (may reach a final state), runner options (interval, '
-        'execute_all), 1-3 client scripts over queue(ev[,delay]) / pause / unpause / stop / '
+        'execute_all), a virtual duration of each cycle (0 .. 0.5, so cycles may overrun the '
+        'interval), 1-3 client scripts over queue(ev[,delay]) / pause / unpause / stop / '
         'advance clock / sleep with a final stop() by the main client, and a schedule choice '
         'list. The harness owns the schedule: threading and time inside sismic.runner.runner are '
         'replaced by shims over a baton scheduler (one thread at a time, switches only at yield '
@@ -78,6 +79,7 @@ def strategy(tier):
         choices = draw(st.lists(st.integers(0, 5), min_size=0, max_size=60))
         return {'spec': spec, 'scripts': scripts, 'prequeue': prequeue,
                 'interval': draw(st.sampled_from([0.1, 0.1, 0, 0.5])),
+                'work': draw(st.sampled_from([0, 0, 0, 0.05, 0.1, 0.25, 0.5])),
                 'execute_all': draw(st.booleans()), 'line': line, 'choices': choices,
                 'seed': draw(st.integers(0, 2 ** 20))}
     return cases()
@@ -141,6 +143,8 @@ def run_schedule(case):
         def before_execute(self):
             sched.yp('before_execute')
             log.append(('before_execute',))
+            if case.get('work'):
+                sched.sleep(case['work'], 'cycle takes time')   # a cycle that lasts (virtual time)
 
         def after_execute(self, steps):
             log.append(('after_execute', [step_index.get(id(s), -1) for s in steps]))
